@@ -14,10 +14,12 @@ Definition oq_eqb (a b : option Q) : bool := opt_eqb Qeq_bool a b.
 Definition oz_eqb (a b : option Z) : bool := opt_eqb Z.eqb a b.
 Definition nkind_eqb (a b : nkind) : bool :=
   match a, b with KSpan, KSpan | KRb, KRb | KRt, KRt => true | _, _ => false end.
+(* set_lang("") cannot be told from a language that was never set: both read back as "" *)
+Definition norm_lang (l : option text) : option text := match l with Some [] => None | _ => l end.
 Definition attrs_eqb (a b : attrs) : bool :=
   oq_eqb (a_begin a) (a_begin b) && oz_eqb (a_bg a) (a_bg b) && oz_eqb (a_color a) (a_color b) &&
   Bool.eqb (a_bold a) (a_bold b) && Bool.eqb (a_italic a) (a_italic b) && Bool.eqb (a_under a) (a_under b) &&
-  opt_eqb text_eqb (a_lang a) (a_lang b).
+  opt_eqb text_eqb (norm_lang (a_lang a)) (norm_lang (a_lang b)).
 
 Fixpoint elem_eqb (x y : elem) {struct x} : bool :=
   let fix list_eqb (l m : list elem) {struct l} : bool :=
